@@ -202,7 +202,7 @@ def gen_containers(tier: str) -> Iterator[dict]:
 def judge(case, tr, dev_runs, host_runs):
     from rmc.pipeline import default_judge
 
-    cid = case["id"][1:] if case["id"].startswith("U") else case["id"]
+    cid = case["id"][2:] if case["id"].startswith("Ub") else (case["id"][1:] if case["id"].startswith("U") else case["id"])
     site = cid.split(":")[1] if cid.startswith("N:") else ""
     if site in NO_HOST_SITES and tr.status == "ok" and dev_runs is not None:
         return ("match", "") if all(d.ok for d in dev_runs) else ("violation", "firmware did not run cleanly")
@@ -224,6 +224,10 @@ def gen_underscore(tier: str) -> Iterator[dict]:
             continue
         src = re.sub(r"\b([vw])\b", r"_\1", case["src"])
         yield {"id": "U" + case["id"], "space": "U", "src": src, "runs": case["runs"]}
+        # ... and with names that are also the names of built-ins the transpiler knows (`max`, `min`): variables like any other
+        if "max(" not in case["src"] and "min(" not in case["src"]:
+            src = re.sub(r"\bw\b", "min", re.sub(r"\bv\b", "max", case["src"]))
+            yield {"id": "Ub" + case["id"], "space": "U", "src": src, "runs": case["runs"]}
 
 
 def generate(tier: str, only=None) -> Iterator[dict]:
